@@ -239,7 +239,10 @@ check("C07",
       "area, mean edge length, mean cell volume, six interpolation operators on a constant) run with every persistent / dense combination on "
       "planar lattice grids (axis, diagonal, 3-4-5), box surfaces, a generic lattice triangle pair and Kuhn tetrahedra, on images under signed "
       "permutation matrices, scales, translations and renumbering, repeatedly and after the mesh has been moved by geometry.transform; TLC "
-      "compares exact surrogates (squares, (component^2, sign), (cos^2, sign), value/pi) with the definitions on the CURRENT geometry.",
+      "compares exact surrogates (squares, (component^2, sign), (cos^2, sign), value/pi) with the definitions on the CURRENT geometry. Added during "
+      "the build: sheared (obtuse) lattices and a 1x2x3 cuboid, histories that never move the mesh, systematic stored-twice histories (every "
+      "quantity twice with its result stored, then every quantity again) and every shape shrunk by 10^5 with the homogeneity degree of each quantity "
+      "stated in the specification (HomDeg).",
       "Exact oracles only on integer lattice inputs; weightings that need irrational mixes are judged only where normals are coordinate axes "
       "and angles multiples of pi/4. Four open known findings (stale cached attributes after a transform).",
       "TLA+ exact definitions (C07_Quantities) with invariance theorems model-checked (C07_MC); TLC trace validation of exact surrogates (C07_Trace)",
